@@ -226,9 +226,9 @@ func c14Case(o *Out, r *Rng) {
 		}
 	}
 	o.Emit(Case{
-		Term: N("c14", LS(names), LS(acts), fail),
-		Obs:  N("obs", B(same && laterSame)),
-		Meta: map[string]interface{}{"failing_doc": doc.String(), "failure": class, "error": ferr.Error(), "differs_in": diff, "later_same": laterSame},
+		Term:       N("c14", LS(names), LS(acts), fail),
+		Obs:        N("obs", B(same && laterSame)),
+		Meta:       map[string]interface{}{"failing_doc": doc.String(), "failure": class, "error": ferr.Error(), "differs_in": diff, "later_same": laterSame},
 		Nontrivial: true,
 	})
 }
@@ -245,6 +245,7 @@ func init() {
 			c14Case(o, rng.Fork())
 		}
 		c14API(o)
+		c14Loads(o)
 	}
 }
 
@@ -341,9 +342,62 @@ func c14API(o *Out) {
 		}
 		o.Count("failure=AddTypes")
 		o.Emit(Case{
-			Term: N("c14api", A(e.name)),
-			Obs:  N("obs", B(same && laterSame)),
-			Meta: map[string]interface{}{"call": "AddTypes: " + e.name, "error": ferr.Error(), "differs_in": diff, "later_same": laterSame},
+			Term:       N("c14api", A(e.name)),
+			Obs:        N("obs", B(same && laterSame)),
+			Meta:       map[string]interface{}{"call": "AddTypes: " + e.name, "error": ferr.Error(), "differs_in": diff, "later_same": laterSame},
+			Nontrivial: true,
+		})
+	}
+}
+
+// ---- failing loads that extend the schema of a root whose schema is implied -----------------------------
+//
+// Same observation as the AddTypes table (snapshot before / after, a request, a later valid load against a control
+// root), for SDL documents: the failing document defines an operation root type the implied schema lacks and
+// extends the schema, and fails afterwards.  Fixed table, every run.
+
+var c14LoadTable = []struct{ name, doc string }{
+	{"extend-schema-subscription+later-duplicate-field", "type Mutation { set: Int }\ntype Subby { s: Int }\nextend schema { subscription: Subby }\nextend type Query { a: Int }\n"},
+	{"extend-schema-mutation+later-duplicate-field", "type Mut { set: Int }\nextend schema { mutation: Mut }\nextend type Query { a: Int }\n"},
+	{"default-mutation-type+extend-schema-directive+undefined-reference", "type Mutation { set: Int }\ndirective @x on SCHEMA\nextend schema @x\ntype Bad { x: Zork }\n"},
+	{"default-subscription-type+extend-schema-subscription-twice", "type Subscription { on: Int }\ntype Subby { s: Int }\nextend schema { subscription: Subby }\n"},
+	{"extend-schema+empty-object", "type Mutation { set: Int }\ntype Subby { s: Int }\nextend schema { subscription: Subby }\ntype Empty { }\n"},
+}
+
+func c14Loads(o *Out) {
+	const first = "type Query { a: Int alt: Alt }\ntype Alt { b: Int }\n"
+	const follow = "type Mutation { set: Int }\ntype Later { z: Alt }\n"
+	for _, e := range c14LoadTable {
+		root, control := newLoadRoot(), newLoadRoot()
+		if safeParse(root, first) != nil || safeParse(control, first) != nil {
+			panic("c14 load base")
+		}
+		before := c14Snap(root)
+		ferr := safeParse(root, e.doc)
+		if ferr == nil {
+			o.Count("failing-load-accepted")
+			continue
+		}
+		after := c14Snap(root)
+		same := before == after
+		e1, e2 := safeParse(root, follow), safeParse(control, follow)
+		laterSame := (e1 == nil) == (e2 == nil) && c14Snap(root) == c14Snap(control)
+		diff := ""
+		if !same {
+			switch {
+			case before.sdl != after.sdl:
+				diff = "printed schema"
+			case before.intro != after.intro:
+				diff = "introspection"
+			default:
+				diff = "request"
+			}
+		}
+		o.Count("failure=load-extending-an-implied-schema")
+		o.Emit(Case{
+			Term:       N("c14api", A("load:"+e.name)),
+			Obs:        N("obs", B(same && laterSame)),
+			Meta:       map[string]interface{}{"call": "ParseString: " + e.doc, "error": ferr.Error(), "differs_in": diff, "later_same": laterSame},
 			Nontrivial: true,
 		})
 	}
